@@ -23,6 +23,7 @@ Vocabulary (anything else raises `TranslateError` = broken tie):
 import ast
 import os
 import re
+import warnings
 
 
 class TranslateError(Exception):
@@ -63,7 +64,9 @@ class Pkg:
                 p = os.path.join(d, f)
                 if f.endswith(".py") and not _skip(p):
                     try:
-                        self.trees[p] = ast.parse(open(p).read(), filename=p)
+                        with warnings.catch_warnings():
+                            warnings.simplefilter("ignore", SyntaxWarning)
+                            self.trees[p] = ast.parse(open(p).read(), filename=p)
                     except SyntaxError as e:
                         raise TranslateError(f"unparsable source {p}: {e}")
         for p, t in self.trees.items():
@@ -239,6 +242,7 @@ class ClassInfo:
         self.methods = {}
         self.registrars = {}      # method -> [(kind, template over its positional parameters)]
         self.gs = None            # parsed own __getstate__: dict(resets, drops, live, from_super)
+        self.lambda_priors = set()   # names of priors registered with a lambda / local function as closure
 
 
 class Translator:
@@ -482,6 +486,12 @@ class Translator:
                             raise TranslateError(f"{ci.name}.{mname}: register_buffer(persistent=<non-constant>)")
                     elif a == "register_prior":
                         reg("prior", _arg(n, 0, "name"))
+                        local_defs = {x.name for x in ast.walk(fn) if isinstance(x, ast.FunctionDef) and x is not fn}
+                        for x in list(n.args[2:]) + [k.value for k in n.keywords
+                                                     if k.arg in ("param_or_closure", "setting_closure")]:
+                            if isinstance(x, ast.Lambda) or (isinstance(x, ast.Name) and x.id in local_defs):
+                                for q in name_pattern(_arg(n, 0, "name"), env):
+                                    ci.lambda_priors.add(q)
                     elif a == "register_constraint":
                         reg("constraint", _arg(n, 0, "param_name"), "_constraint")
                     elif a == "add_module":
@@ -689,6 +699,9 @@ class Translator:
                         idx_super = i
             F["loadCallsClear"] = idx_clear is not None
             F["loadDelegates"] = idx_super is not None
+        rp = M.methods.get("register_prior")
+        F["registerPriorLocalClosures"] = bool(rp and any(
+            isinstance(x, ast.FunctionDef) and x is not rp[-1] for x in ast.walk(rp[-1])))
         tr = M.methods.get("train")
         F["trainCallsClear"] = bool(tr and self._calls_self(tr[-1], "_clear_cache"))
         # Kernel.__getstate__: `self.<f> = None; return self.__dict__`
@@ -801,7 +814,7 @@ class Translator:
         for k in keys:
             ci = self.info[k]
             allnames |= {q for _, q, _ in ci.regs} | ci.init_attrs | ci.mut_attrs | ci.persisted_writes | ci.memo \
-                | ci.clears | ci.eff_clears | ci.eff_mut | ci.eff_drops
+                | ci.clears | ci.eff_clears | ci.eff_mut | ci.eff_drops | ci.lambda_priors
         owned = set()
         for k in keys:
             owned |= self.info[k].init_attrs | self.info[k].mut_attrs
@@ -830,7 +843,7 @@ class Translator:
         for k in keys:
             ci = self.info[k]
             regs = sorted({(kinds[kind], nid[nm], 1 if ini else 0) for kind, nm, ini in ci.regs})
-            row = (f"  {{ id := {cid[k]}, bases := {L(cid[b] for b in ci.bases if b in cid)}, gp := {'true' if ci.gp else 'false'},\n"
+            row = (f"  {{ id := {cid[k]}, bases := {L(cid[b] for b in ci.bases if b in cid)}, mro := {L(cid[b] for b in self.mro(k) if b in cid)}, gp := {'true' if ci.gp else 'false'},\n"
                    f"    regs := [{', '.join(f'({a}, {b}, {('true' if c else 'false')})' for a, b, c in regs)}],\n"
                    f"    initAttrs := {L(sorted(nid[a] for a in ci.init_attrs))},\n"
                    f"    mutAttrs := {L(sorted(nid[a] for a in ci.mut_attrs))},\n"
@@ -840,6 +853,7 @@ class Translator:
                    f"    hooks := {L(sorted(hid[h] for h in ci.hooks | ci.hook_calls))},\n"
                    f"    effHooks := {L(sorted(hid[h] for h in ci.eff_hooks))},\n"
                    f"    copyDrops := {L(sorted(nid[a] for a in ci.eff_drops))},\n"
+                   f"    lambdaPriors := {L(sorted(nid[a] for a in ci.lambda_priors))},\n"
                    f"    clears := {L(sorted(nid[a] for a in ci.eff_clears))} }}")
             rows.append(row)
         out.append("def classes : List ClassRow := [\n" + ",\n".join(rows) + "]\n")
@@ -851,6 +865,8 @@ class Translator:
         out.append(f"def loadCallsClear : Bool := {b(F['loadCallsClear'])}")
         out.append(f"def loadDelegates : Bool := {b(F['loadDelegates'])}")
         out.append(f"def trainCallsClear : Bool := {b(F['trainCallsClear'])}")
+        out.append("/-- `Module.register_prior(name, prior, \"param\")` builds its closures as local functions (unpicklable) -/")
+        out.append(f"def registerPriorLocalClosures : Bool := {b(F['registerPriorLocalClosures'])}")
         out.append("/-- `Kernel.__getstate__` = reset these fields to None, return `self.__dict__` (nothing dropped) -/")
         out.append("def kernelGetstateResets : List Nat := " + L(nid[a] for a in F["kernelGetstateResets"]))
         out.append(f"def kernelGetstateReturnsDict : Bool := {b(F['kernelGetstateReturnsDict'])}")
@@ -890,6 +906,7 @@ class Translator:
                 "memo": sorted(set().union(*[c.memo for c in chain])),
                 "hooks": sorted(ci.hooks | ci.hook_calls),
                 "eff_hooks": sorted(set().union(*[c.hooks | c.hook_calls for c in chain])),
+                "lambda_priors": sorted(ci.lambda_priors),
                 "clears": sorted(ci.eff_clears), "copy_drops": sorted(ci.eff_drops), "gp": ci.gp,
                 # some class of the MRO derives from a class outside the package that is not an nn.Module
                 # (torch.distributions …): its instances carry attributes the translator cannot see
